@@ -270,3 +270,8 @@ Definition blend_mask_clip_px (m : mode) (src dst mask clip : Z) : result Z :=
   if a =? 0 then Ok dst else do b <- blend m src dst; Ok (lerp dst b (alpha_to_alpha256 a)).
 
 Definition premul (p : Z) : bool := (get_r p <=? get_a p) && (get_g p <=? get_a p) && (get_b p <=? get_a p).
+
+(* premultiply never trips its assertion (muldiv255 c a <= a); the total version used by shaders *)
+Definition premultiply_t (c : Z) : Z :=
+  let a := get_a c in let r := get_r c in let g := get_g c in let b := get_b c in
+  if a <? 255 then pack a (muldiv255 r a) (muldiv255 g a) (muldiv255 b a) else pack a r g b.
